@@ -379,7 +379,7 @@ def run_world(ctx, world, dts, entries, n_subsets, alone_all_modes, pairs):
     # every valid column alone
     for _, cleaned in modes_of(world):
         for name in valid_names(dts, world.layout, cleaned):
-            if not alone_all_modes and world.layout == 'snap' and not cleaned and name not in special and rng.random() < 0.5:
+            if not alone_all_modes and world.layout == 'snap' and not cleaned and name not in special and rng.random() < 0.75:
                 continue
             check_request(ctx, world, dts, [name], cleaned, '-', te, lm)
     flush_model(ctx, world, te, lm)
